@@ -94,6 +94,8 @@ class Model:
             if op == 3:
                 return ("respond", 1, [2], False, "set-discovered-flag")
             return ("unspec",)
+        if cmd in (2, 3, 5) and len(data) != 0:
+            return ("unspec",)   # these commands take no request data; the answer is pinned by no property
         if cmd == 2:
             return ("respond", 2, [0, self.resp, None, None], False, "get-eid")
         if cmd == 3:
@@ -149,7 +151,10 @@ def check_model_trace(prop, events):
         if op in ("A", "B"):
             # whether a store through one half is visible through the other is not fixed by C13
             v = int(ev["in"], 16)
-            if (ev["er"], ev["es"]) == (v, v):
+            if v in (0x00, 0xFF):
+                # outside C13's accessor quantifier (0x01-0xFE): adopt what the context reports
+                m.req, m.resp = ev["er"], ev["es"]
+            elif (ev["er"], ev["es"]) == (v, v):
                 m.req, m.resp = v, v
         elif op == "U":
             m.uuid = bytes.fromhex(ev["in"])
